@@ -153,6 +153,9 @@ func (w *World) open() error {
 	w.Client.Intercept(ent.InterceptFunc(func(next ent.Querier) ent.Querier {
 		return ent.QuerierFunc(func(ctx context.Context, q ent.Query) (ent.Value, error) {
 			v, err := next.Query(ctx, q)
+			if S != nil {
+				S.AfterEntOp()
+			}
 			if schedLog && err != nil {
 				S.mu.Lock()
 				S.Log = append(S.Log, fmt.Sprintf("    query error %v", err))
@@ -164,6 +167,15 @@ func (w *World) open() error {
 			return v, err
 		})
 	}))
+	w.Client.Use(func(next ent.Mutator) ent.Mutator {
+		return ent.MutateFunc(func(ctx context.Context, m ent.Mutation) (ent.Value, error) {
+			v, err := next.Mutate(ctx, m)
+			if S != nil {
+				S.AfterEntOp()
+			}
+			return v, err
+		})
+	})
 	w.Faults = faults.NewSet(fmt.Sprintf("sim%d_%d", runCounter, w.restarts))
 	svc := mbgrpc.NewGrpcService(8084, 1, nil, w.Faults, func(_ context.Context, s *grpc.Server, c *ent.Client) error {
 		return services.InitializeGrpcServers(s, c, nil)
